@@ -56,6 +56,7 @@ fn main() {
         "c17" => c17::main(&args),
         "c17sem" => c17::main_sem(&args),
         "c19" => c19::main(&args),
+        "c19inst" => c19::main_inst(&args),
         "c13" => c13::main(&args),
         "c16" => c16::main(&args),
         "c18" => c18::main(&args),
